@@ -119,6 +119,10 @@ func main() {
 				usage()
 			}
 			cfg.MaxRuns = envInt("VERIF_MAX_RUNS", 0)
+			cfg.MaxFound = envInt("VERIF_MAX_FOUND", 12)
+			if s := envInt("VERIF_SHRINK_S", -1); s >= 0 {
+				cfg.ShrinkFor = time.Duration(s) * time.Second
+			}
 			code = sim.RunBatch(w, chk, cfg)
 		case "replay":
 			if len(os.Args) < 3 {
